@@ -1,7 +1,9 @@
 (* C12c: the request loop sees a backend only through its four hooks (backend_simulation); the serial
    backend over a line in step with its script is the scripted backend (line_hooks,
    line_refines_script); a recovery that comes back at another bit rate breaks that
-   (recover_elsewhere_refuted).
+   (recover_elsewhere_refuted); every frame whose transmission succeeded is in what the receiver gets
+   (line_delivers_all: the invariant [inv] below, kept by every building block); a flush that also resets
+   the output buffer breaks that (flush_both_refuted).
 
    Method: two worlds over two backends are related ([wrel]) when server state, clock, trace and tie flag
    are equal and the environments are related by R.  Every building block of the request loop maps
@@ -311,7 +313,7 @@ Theorem line_hooks : forall l s, line_ok l s ->
   /\ line_ok (l_recover l) (s_recover s).
 Proof.
   intros l s (Hscr & Hheard & Hopen).
-  destruct l as [p rb sc]. cbn [l_script l_port] in Hscr, Hopen. subst sc.
+  destruct l as [p rb sc lo lg]. cbn [l_script l_port] in Hscr, Hopen. subst sc.
   split; [|split; [|split]].
   - unfold l_receive. cbn [l_script l_port l_rxbaud]. rewrite Hheard.
     destruct (s_receive s) as [[d dt] s'] eqn:Es. cbn [fst snd].
@@ -359,7 +361,7 @@ Definition rx_rq : request := mkRequest (10, 4) (BFields []) ("Resp"%string, RK 
 Definition rx_answer : bytes := fst (to_bytes (new_frame 10 4 [])).
 Definition rx_line : sline :=
   mkSLine (mkPort true 115200%Z []) 115200%Z
-          (mkScript [] [(true, []); (true, [(Some rx_answer, 1)])] 50).
+          (mkScript [] [(true, []); (true, [(Some rx_answer, 1)])] 50) [] [].
 
 Theorem recover_elsewhere_refuted :
   exists sk fuel rq srv0 l,
@@ -372,4 +374,245 @@ Proof.
   - repeat split.
   - exists (mkRFrame "Resp" (10, 4) [] (DFields [])). vm_compute. reflexivity.
   - vm_compute. reflexivity.
+Qed.
+
+(* ------------------------------------------------------------------ 5. successful transmissions are delivered *)
+Lemma tx_ok_frames_app a b : tx_ok_frames (a ++ b) = tx_ok_frames a ++ tx_ok_frames b.
+Proof.
+  induction a as [|ev a IH]; [reflexivity|].
+  destruct ev as [d [|]|d dt| |]; cbn [app tx_ok_frames]; rewrite IH; reflexivity.
+Qed.
+
+(* A backend with a ghost "sent" list: reads, flushes and recoveries keep it, a transmission appends its frame
+   exactly when it reports success.  Then [sent env = base ++ successful transmissions of the trace] is kept
+   by every building block of the request loop. *)
+Section Inv.
+Context {E : Type} (B : backend E) (sent : E -> list bytes) (base : list bytes).
+Hypothesis Hrx : forall e, sent (snd (receive B e)) = sent e.
+Hypothesis Htx : forall e d,
+  sent (snd (transmit B e d)) = sent e ++ (if fst (transmit B e d) then [d] else []).
+Hypothesis Hfl : forall e, sent (flush B e) = sent e.
+Hypothesis Hrc : forall e, sent (recover B e) = sent e.
+Variable sk : list N.
+
+Definition inv (w : world E) : Prop := sent (wenv w) = base ++ tx_ok_frames (wtrace w).
+
+Lemma inv_log_quiet w e' now' ev :
+  inv w -> sent e' = sent (wenv w) -> tx_ok_frames [ev] = [] -> inv (log w e' now' ev).
+Proof.
+  unfold inv, log. cbn [wenv wtrace]. intros Hi He Hev.
+  rewrite tx_ok_frames_app, Hev, app_nil_r, He. exact Hi.
+Qed.
+
+Lemma with_parser_inv w p : inv w -> inv (with_parser w p).
+Proof. intros Hi. exact Hi. Qed.
+
+Lemma with_reg_inv w r : inv w -> inv (with_reg w r).
+Proof. intros Hi. exact Hi. Qed.
+
+Lemma purge_inv w : inv w -> inv (purge w).
+Proof. intros Hi. exact Hi. Qed.
+
+Lemma do_flush_inv w : inv w -> inv (do_flush B w).
+Proof. intros Hi. unfold do_flush. apply inv_log_quiet; [exact Hi | apply Hfl | reflexivity]. Qed.
+
+Lemma do_recover_inv w : inv w -> inv (do_recover B w).
+Proof. intros Hi. unfold do_recover. apply inv_log_quiet; [exact Hi | apply Hrc | reflexivity]. Qed.
+
+Lemma send_inv w c pl : inv w -> inv (snd (send B w c pl)).
+Proof.
+  intros Hi. unfold send.
+  pose proof (Htx (wenv w) (fst (to_bytes (new_frame (fst c) (snd c) pl)))) as Ht.
+  destruct (transmit B (wenv w) (fst (to_bytes (new_frame (fst c) (snd c) pl)))) as [ok e'].
+  cbn [fst snd] in Ht |- *. unfold inv in Hi |- *. unfold log. cbn [wenv wtrace].
+  rewrite tx_ok_frames_app, Ht, Hi, <- app_assoc.
+  reflexivity.
+Qed.
+
+Lemma wait_inv : forall fuel dl w, inv w -> inv (snd (wait B sk fuel dl w)).
+Proof.
+  induction fuel as [|k IH]; intros dl w Hi.
+  - exact Hi.
+  - destruct w as [s e n t tie].
+    cbn [wait wsrv wnow wtrace wtie wenv].
+    destruct (n <? dl).
+    + pose proof (Hrx e) as He'.
+      destruct (receive B e) as [[d dt] e']. cbn [snd] in He'.
+      unfold log, with_parser.
+      cbn [wsrv wnow wtrace wtie wenv sparser sreg sretries sdelay].
+      destruct (packet (match nonempty d with
+                        | Some d0 => process (sparser s) d0
+                        | None => sparser s
+                        end)) as [x p'].
+      assert (Hw' : inv
+        (mkWorld (mkSrv p' (sreg s) (sretries s) (sdelay s)) e' (n + dt)
+                 (t ++ [Rx d dt]) (tie || (n =? dl)))).
+      { unfold inv in Hi |- *. cbn [wenv wtrace] in Hi |- *.
+        rewrite tx_ok_frames_app, app_nil_r, He'. exact Hi. }
+      destruct x as [[c i payload|]|].
+      * destruct (is_crc_marker (Pkt c i payload)); [apply IH, Hw'|].
+        destruct (reg_lookup (sreg s) (c, i)) as [[name rk]|]; [|apply IH, Hw'].
+        destruct (build_with_data sk rk payload) as [dd|ex]; [|apply IH, Hw'].
+        cbn [snd]. exact Hw'.
+      * apply IH, Hw'.
+      * apply IH, Hw'.
+    + cbn [snd]. exact Hi.
+Qed.
+
+Lemma poll_phase_inv : forall fuel req ack resp dl w, inv w ->
+  inv (snd (poll_phase B sk fuel req ack resp dl w)).
+Proof.
+  induction fuel as [|k IH]; intros req ack resp dl w Hi.
+  - exact Hi.
+  - cbn [poll_phase].
+    pose proof (wait_inv (S k) dl w Hi) as Hw'.
+    destruct (wait B sk (S k) dl w) as [r w']. cbn [snd] in Hw'.
+    destruct r as [[f|]|].
+    + destruct (negb ack).
+      * destruct (cid_eqb (rf_cid f) req).
+        -- destruct (fst req =? CLASS_CFG).
+           ++ apply IH, Hw'.
+           ++ cbn [snd]. exact Hw'.
+        -- apply IH, Hw'.
+      * destruct (check_ack_nak req f).
+        -- destruct resp as [r|]; (cbn [snd]; exact Hw').
+        -- apply IH, Hw'.
+        -- apply IH, Hw'.
+    + cbn [snd]. exact Hw'.
+    + cbn [snd]. exact Hw'.
+Qed.
+
+Lemma poll_attempts_inv : forall n fuel req payload w, inv w ->
+  inv (snd (poll_attempts B sk fuel n req payload w)).
+Proof.
+  induction n as [|n' IH]; intros fuel req payload w Hi.
+  - exact Hi.
+  - cbn [poll_attempts].
+    pose proof (send_inv _ req payload (do_flush_inv _ Hi)) as Hws.
+    destruct (send B (do_flush B w) req payload) as [ok ws]. cbn [snd] in Hws.
+    destruct ok; [|apply IH, Hws].
+    pose proof (poll_phase_inv fuel req false None (wnow (purge ws) + sdelay (wsrv (purge ws)))
+                  _ (purge_inv _ Hws)) as Hwa.
+    destruct (poll_phase B sk fuel req false None
+                (wnow (purge ws) + sdelay (wsrv (purge ws))) (purge ws)) as [a wa].
+    cbn [snd] in Hwa.
+    destruct a as [f| |].
+    + cbn [snd]. exact Hwa.
+    + apply IH, do_recover_inv, Hwa.
+    + cbn [snd]. exact Hwa.
+Qed.
+
+Lemma set_attempts_inv : forall n fuel mga req payload w, inv w ->
+  inv (snd (set_attempts B sk fuel n mga req payload w)).
+Proof.
+  induction n as [|n' IH]; intros fuel mga req payload w Hi.
+  - exact Hi.
+  - cbn [set_attempts].
+    pose proof (send_inv _ req payload (do_flush_inv _ Hi)) as Hws.
+    destruct (send B (do_flush B w) req payload) as [ok ws]. cbn [snd] in Hws.
+    destruct ok; [|apply IH, Hws].
+    pose proof (wait_inv fuel (wnow (purge ws) + sdelay (wsrv (purge ws))) _ (purge_inv _ Hws)) as Hwa.
+    destruct (wait B sk fuel (wnow (purge ws) + sdelay (wsrv (purge ws))) (purge ws)) as [a wa].
+    cbn [snd] in Hwa.
+    destruct a as [[f|]|].
+    + destruct (if mga then check_mga f
+                else match check_ack_nak req f with IsAck | IsNak => true | IsOther => false end).
+      * cbn [snd]. exact Hwa.
+      * apply IH, Hwa.
+    + apply IH, do_recover_inv, Hwa.
+    + cbn [snd]. exact Hwa.
+Qed.
+
+Lemma poll_inv fuel rq w : inv w -> inv (snd (poll B sk fuel rq w)).
+Proof.
+  intros Hi. unfold poll.
+  destruct (pack_body (rq_body rq)) as [payload|ex].
+  - apply poll_attempts_inv, with_parser_inv, with_reg_inv, Hi.
+  - cbn [snd]. apply with_parser_inv, with_reg_inv, Hi.
+Qed.
+
+Lemma set_inv fuel rq w : inv w -> inv (snd (set B sk fuel rq w)).
+Proof.
+  intros Hi. unfold set.
+  destruct (pack_body (rq_body rq)) as [payload|ex].
+  - apply set_attempts_inv, with_parser_inv, Hi.
+  - cbn [snd]. apply with_parser_inv, Hi.
+Qed.
+
+Lemma set_mga_inv fuel rq w : inv w -> inv (snd (set_mga B sk fuel rq w)).
+Proof.
+  intros Hi. unfold set_mga.
+  destruct (pack_body (rq_body rq)) as [payload|ex].
+  - apply set_attempts_inv, with_parser_inv, Hi.
+  - cbn [snd]. apply with_parser_inv, Hi.
+Qed.
+
+Lemma fire_inv rq w : inv w -> inv (snd (fire_and_forget B rq w)).
+Proof.
+  intros Hi. unfold fire_and_forget.
+  destruct (pack_body (rq_body rq)) as [payload|ex].
+  - pose proof (send_inv _ (rq_cid rq) payload Hi) as Hws.
+    destruct (send B w (rq_cid rq) payload) as [ok ws]. cbn [snd] in Hws |- *. exact Hws.
+  - cbn [snd]. exact Hi.
+Qed.
+
+Lemma do_request_inv fuel o rq w : inv w -> inv (snd (do_request B sk fuel o rq w)).
+Proof.
+  intros Hi. destruct o; cbn [do_request].
+  - apply poll_inv, Hi.
+  - apply set_inv, Hi.
+  - apply set_mga_inv, Hi.
+  - apply fire_inv, Hi.
+Qed.
+
+End Inv.
+
+Lemma l_receive_sent l : l_sent (snd (l_receive l)) = l_sent l.
+Proof.
+  unfold l_receive. destruct (s_receive (l_script l)) as [[d dt] s']. cbn [snd].
+  unfold l_sent. cbn [l_got l_out]. apply app_nil_r.
+Qed.
+
+Lemma l_transmit_sent l d :
+  l_sent (snd (l_transmit l d)) = l_sent l ++ (if fst (l_transmit l d) then [d] else []).
+Proof.
+  unfold l_transmit. cbv zeta.
+  destruct (future (l_script l)) as [|[ok evs] t]; cbn [fst snd].
+  - rewrite tty_flag_all. unfold l_sent. cbn [l_got l_out]. apply app_assoc.
+  - destruct ok.
+    + rewrite tty_flag_all. unfold l_sent. cbn [l_got l_out]. apply app_assoc.
+    + rewrite tty_flag_short. unfold l_sent. cbn [l_got l_out]. symmetry. apply app_nil_r.
+Qed.
+
+Lemma l_flush_sent l : l_sent (l_flush l) = l_sent l.
+Proof. reflexivity. Qed.
+
+Lemma l_recover_sent l : l_sent (l_recover l) = l_sent l.
+Proof. unfold l_recover, tty_recover. destruct (p_open (l_port l)); reflexivity. Qed.
+
+Theorem line_delivers_all : forall sk fuel o rq srv0 now tie l,
+  let r := do_request line_backend sk fuel o rq (mkWorld srv0 l now [] tie) in
+  l_sent (wenv (snd r)) = l_sent l ++ tx_ok_frames (wtrace (snd r)).
+Proof.
+  intros sk fuel o rq srv0 now tie l r. subst r.
+  apply (do_request_inv line_backend l_sent (l_sent l)
+           l_receive_sent l_transmit_sent l_flush_sent l_recover_sent sk fuel o rq
+           (mkWorld srv0 l now [] tie)).
+  unfold inv. cbn [wenv wtrace tx_ok_frames]. symmetry. apply app_nil_r.
+Qed.
+
+(* ------------------------------------------------------------------ 6. a flush that resets the output buffer *)
+Definition fb_rq1 : request := mkRequest (6, 4) (BFields []) ("Resp"%string, RK (KFixed [])).
+Definition fb_rq2 : request := mkRequest (6, 9) (BFields []) ("Resp"%string, RK (KFixed [])).
+Definition fb_line : sline :=
+  mkSLine (mkPort true 115200%Z []) 115200%Z (mkScript [] [] 50) [] [].
+
+Theorem flush_both_refuted :
+  exists sk fuel rq1 rq2 srv0 l,
+    let r1 := do_request flush_both_backend sk fuel RFire rq1 (mkWorld srv0 l 0 [] false) in
+    let r2 := do_request flush_both_backend sk fuel RSet rq2 (mkWorld (wsrv (snd r1)) (wenv (snd r1)) (wnow (snd r1)) [] false) in
+    l_sent (wenv (snd r2)) <> l_sent l ++ tx_ok_frames (wtrace (snd r1)) ++ tx_ok_frames (wtrace (snd r2)).
+Proof.
+  exists [], 20%nat, fb_rq1, fb_rq2, (new_srv 0 100), fb_line.
+  vm_compute. intro H. discriminate H.
 Qed.
